@@ -306,7 +306,7 @@ def main():
               "instantiations compiled into the harness (empty containers, duplicate and unsorted set/map input, NUL strings, null and "
               "non-null pointers, strings around 255/256/64Ki); load/sload of every truncation, every length-field mutation "
               "(L+-1..4, remaining+-1..4, wrap values such as 0xfffffffc and 2^32-ptr), count and pointer-flag mutations, bit flips, "
-              "insertions and deletions of valid archives, and random bytes; raw primitive scripts (ops) and write_chunk (wr). "
+              "insertions and deletions of valid archives, random bytes, and the exhaustive edge space (every length field in 0..13, 2^31-4..2^31+3, 2^32-14..2^32-1 over bodies of 0..9 bytes, at ptr 0 and behind a chunk; thorough: every 1- and 2-byte archive); raw primitive scripts (ops, incl. reset/mode rewinds), archive reuse (load2) and write_chunk (wr). "
               "non-trivial = model output is an archive_error, or a successful save/load/round trip of a value with >= 3 tokens; "
               "distinct = distinct case lines" % len(TYPES))
     c.trusted += [
@@ -368,7 +368,7 @@ def main():
                 if line and not line.startswith("#"):
                     corpus.append(line)
     casesA, expect = list(corpus), {}
-    per_type = 60 if thorough else 24
+    per_type = 90 if thorough else 24
     big = 70000 if thorough else 3000
     values = []          # (type name, normalized python value)
     for name in TYPES:
@@ -457,6 +457,27 @@ def main():
         casesB.append(f"load {rng.choice(TYPES)} {hexs0(b)}")
         if rng.random() < 0.2:
             casesB.append(f"ops {hexs0(b)} {' '.join(rng.choice(('n', 's', 'e', 'r0', 'r1', 'r4', 'r8')) for _ in range(rng.randrange(1, 5)))}")
+    # small exhaustive spaces: every length field near 0 / near the remaining size / near 2^31 and 2^32, over every body length 0..9
+    edge_vals = list(range(0, 14)) + list(range((1 << 32) - 14, 1 << 32)) + list(range((1 << 31) - 4, (1 << 31) + 4))
+    edge_types = ("s", "v1", "v2", "p4", "L.s", "R.s", "S.p1" if "S.p1" in types else "S.p4", "B.A3.s")
+    for body in range(0, 10):
+        for v in edge_vals:
+            a = u32(v) + bytes(range(65, 65 + body))
+            casesB.append(f"ops {hexs0(a)} n s e")
+            casesB.append(f"ops {hexs0(a)} r{min(v, 64)} e")
+            for name in edge_types:
+                casesB.append(f"load {name} {hexs0(a)}")
+            # the same behind a valid 1-byte chunk (ptr_ != 0)
+            casesB.append(f"ops {hexs0(u32(1) + b'Z' + a)} s n s e")
+            casesB.append(f"load P.p4.s {hexs0(u32(4) + b'ZZZZ' + a)}")
+    if thorough:       # every archive of 1 and 2 bytes, every 4-byte archive with three zero bytes, every 5-byte archive with a 1-byte length
+        for name in ("s", "v2", "L.s", "R.s"):
+            for x in range(256):
+                casesB.append(f"load {name} {bytes([x]).hex()}")
+                casesB.append(f"load {name} {bytes([x, 0, 0, 0]).hex()}")
+                casesB.append(f"load {name} {bytes([x, 0, 0, 0, 65]).hex()}")
+                for y in range(256):
+                    casesB.append(f"load {name} {bytes([x, y]).hex()}")
     casesB = list(dict.fromkeys(casesB))
 
     cases = casesA + casesB
